@@ -295,6 +295,18 @@ func caseNC(c *kit.Ctx, r *kit.Rand) {
 		q := p.DeepCopy()
 		pd := podData(q, all)
 		relax := bestEffort && len(nc.Pods) == 0
+		// branch counters of filterInstanceTypesByRequirements, taken before the call
+		hp := scheduling.GetHostPorts(q)
+		for _, g := range nc.VerifC01DaemonGroups() {
+			if g.HostPortUsage.Conflicts(q, hp) != nil {
+				c.Count("A.filter.branch.group-skipped-port-conflict")
+			} else if len(g.DaemonOverhead) == 0 {
+				c.Count("A.filter.branch.group-without-overhead")
+			} else {
+				c.Count("A.filter.branch.group-with-overhead")
+			}
+		}
+		before := len(nc.InstanceTypeOptions)
 		reqs, its, ofs, res, err := nc.CanAdd(ctx, q, pd, relax, nil)
 		var obs string
 		var jr interface{}
@@ -304,6 +316,16 @@ func caseNC(c *kit.Ctx, r *kit.Rand) {
 			obs = "(NErr " + cls + ")"
 			jr = map[string]string{"error": cls, "message": err.Error()}
 		} else {
+			if len(its) < before {
+				c.Count("A.nc.options-narrowed")
+			}
+			if relax && reqs.HasMinValues() {
+				for k, r := range reqs {
+					if o := nct.Requirements.Get(k).MinValues; o != nil && r.MinValues != nil && *r.MinValues < *o {
+						c.Count("A.nc.minValues-relaxed")
+					}
+				}
+			}
 			nc.Add(ctx, q, pd, reqs, its, ofs, res, nil)
 			okCount++
 			c.Count("A.nc.ok")
